@@ -240,6 +240,22 @@ struct JSONUtils {
                 }
 
                 default: {
+                    if (SizeT32(ch) < 0x20U) {
+                        // The remaining control characters have no short form: \u00XX
+                        const SizeT32 high = (SizeT32(ch) >> 4U);
+                        const SizeT32 low  = (SizeT32(ch) & 0xFU);
+
+                        stream.Write((content + offset2), (offset - offset2));
+                        offset2 = offset;
+                        ++offset2;
+
+                        stream += JSONotation::BSlashChar;
+                        stream += JSONotation::U_Char;
+                        stream += Char_T('0');
+                        stream += Char_T('0');
+                        stream += Char_T('0' + high);
+                        stream += Char_T((low < 10U) ? ('0' + low) : ('A' + (low - 10U)));
+                    }
                 }
             }
 
